@@ -1,2 +1,60 @@
-/- C04 correspondence driver (stub: replaced when the property's model is built) -/
-def main : IO Unit := IO.println "stub"
+import PnVerif.Model.HeaderText
+/-
+  C04 correspondence driver.  One request per line on stdin, one answer per line on stdout.
+
+    ENC <schema>            -> <hex of Header.encodeRaw> <Hdr.len> <offset of dim tag> <gatt tag> <var tag>
+    FILE <hexfile>          -> sets the current file; answers  FILE <length>
+    DEC <chunk>             -> decodeChunked chunk of the current file:
+                                   OK <schema, vsize := recomputed len> | xsz beginVar beginRec recsize numRecVars
+                                   ERR <NC code>
+    DEC W                   -> the same for decodeWhole
+    SPEC                    -> Spec.specDecode: OK <schema as stored> | refsOk   or  NONE
+
+  schema / hex syntax: PnVerif/Model/HeaderText.lean
+-/
+open PnVerif PnVerif.Spec PnVerif.Header PnVerif.HeaderText
+
+def showDecoded (r : Except Err (Hdr × Info)) : String :=
+  match r with
+  | .error e => s!"ERR {e.code}"
+  | .ok (h, info) =>
+    let h' : Hdr := { h with vars := (h.vars.zip info.lens).map (fun (v, l) => { v with vsize := l }) }
+    s!"OK {showSchema h'} | {info.xsz} {info.beginVar} {info.beginRec} {info.recsize} {info.numRecVars}"
+
+def step (file : Bytes) (line : String) : String :=
+  match tokens line.trimAscii.toString with
+  | "ENC" :: ts =>
+    match tSchema ts with
+    | some (h, []) =>
+      let w := sizeofNonNeg h.fmt.version
+      let o1 := 4 + w
+      let o2 := o1 + lenDimArray w h.dims
+      let o3 := o2 + lenAttrArray w h.gatts
+      s!"{toHex (encodeRaw h)} {Hdr.len h} {o1} {o2} {o3}"
+    | _ => "bad-schema"
+  | ["DEC", c] =>
+    if c == "W" then showDecoded (decodeWhole file)
+    else match c.toNat? with
+      | some chunk => showDecoded (decodeChunked chunk file)
+      | none => "bad-chunk"
+  | ["SPEC"] =>
+    match specDecode file with
+    | some d => s!"OK {showSchema d} | {d.refsOk}"
+    | none => "NONE"
+  | _ => "bad-op"
+
+partial def loop (h : IO.FS.Stream) (out : IO.FS.Stream) (file : Bytes) : IO Unit := do
+  let line ← h.getLine
+  if line.isEmpty then return ()
+  match tokens line.trimAscii.toString with
+  | ["FILE", hex] =>
+    match ofHex hex with
+    | some f => out.putStrLn s!"FILE {f.length}"; loop h out f
+    | none => out.putStrLn "bad-hex"; loop h out file
+  | _ =>
+    out.putStrLn (step file line)
+    loop h out file
+
+def main : IO Unit := do
+  let out ← IO.getStdout
+  loop (← IO.getStdin) out []
